@@ -501,6 +501,22 @@ func (ctrler *GovCtrler) GetGovParams() ctrlertypes.GovParams {
 	return ctrler.GovParams
 }
 
+// GovParamsAt returns the governance parameters committed at `height` (nil if not available).
+func (ctrler *GovCtrler) GovParamsAt(height int64) ctrlertypes.IGovHandler {
+	ctrler.mtx.RLock()
+	defer ctrler.mtx.RUnlock()
+
+	atledger, xerr := ctrler.paramsLedger.ImmutableLedgerAt(height, 0)
+	if xerr != nil {
+		return nil
+	}
+	params, xerr := atledger.Read(ledger.ToLedgerKey(abytes.ZeroBytes(32)))
+	if xerr != nil {
+		return nil
+	}
+	return params
+}
+
 func (ctrler *GovCtrler) ReadAllProposals() ([]*proposal.GovProposal, xerrors.XError) {
 	ctrler.mtx.RLock()
 	defer ctrler.mtx.RUnlock()
